@@ -39,6 +39,14 @@ CHECKS["C10"] = dict(
     note="trusted: renderer, duration_parts projection (language format table), TLC; counts, part sequences and operand sets are bounded",
     ref="7 C10")
 
+CHECKS["C11"] = dict(
+    technique="TLA+ spec (Clock.tla) model-checked by TLC; TLC-enumerated time / zone lines replayed into the code under three default zones; random traces validated by TLC (Trace.tla)",
+    text="TLC model-checks on Clock.tla the round trip wall -> instant -> wall, composition of conversions, shift inverse / modulo 24 h and symmetry of differences for every minute of the day "
+         "x 14 offsets; enumerates 7 wall times x every usable zone of config.json and 8 GMT forms, conversions over ordered zone pairs (quick 44x44, thorough all), shifts, differences under "
+         "3 default zones set through set_timezone, replayed in every admissible spelling; random times / zones / durations / default zones are executed and validated by TLC.",
+    note="trusted: renderer, time_printed projection, zone offsets read from config.json, TLC; 12:xx am/pm and zone names with another meaning are outside the property",
+    ref="7 C11")
+
 NOT_YET = {
 }
 
